@@ -450,7 +450,7 @@ def decide(prop, tier="quick", seed=0):
         fn_list += [{"unit": u, "item": loc, "clauses": c} for loc, c in per_fn]
         smt_ms += ur.get("smt_ms") or 0
         for rep in ur["reports"]:
-            if rep["kind"] in ("fn", "closure", "block") and prop in (rep.get("props") or ur["meta"].get("default-props", [])):
+            if rep["kind"] in ("fn", "closure", "block", "tail") and prop in (rep.get("props") or ur["meta"].get("default-props", [])):
                 if len(samples) < 6:
                     samples.append({"unit": u, "function": rep["name"], "repo": "%s:%d-%d" % (rep["file"], rep["lines"][0], rep["lines"][1]),
                                     "sha256_repo_text": rep["sha256_repo_text"][:16], "rewrites": rep["rewrites"][:4]})
